@@ -41,7 +41,7 @@ pub enum Scen {
     /// 0-RTT with a ticket, server rejects: stale early handles must be inert, the retry on a
     /// fresh stream (same id) must be delivered exactly
     S4r,
-    /// two client tasks share a 1000-byte datagram send buffer and send 600-byte datagrams with
+    /// three client tasks share a 1000-byte datagram send buffer and send 600-byte datagrams with
     /// `send_datagram_wait`: each wakeup may find the buffer taken again by the other task
     S5,
     S6,
@@ -1385,6 +1385,8 @@ async fn s4_server_conn(o: Arc<Obs>, inc: Incoming, ep: Endpoint) {
 // S5: contended datagram send buffer
 
 const S5_PER_TASK: u16 = 3;
+/// three senders: two of them can be blocked at once, so a woken sender may find the buffer taken again
+const S5_TASKS: u16 = 3;
 
 async fn s5_sender(o: Arc<Obs>, conn: quinn::Connection, who: u16, latch: Arc<Latch>) {
     for i in 0..S5_PER_TASK {
@@ -1408,10 +1410,10 @@ async fn s5_client(o: Arc<Obs>, ep: Endpoint, cc: ClientConfig, saddr: SocketAdd
         Err(e) => return o.fail("O1:connect", format!("connect failed: {}", cerr(&e))),
     };
     let latch = Arc::new(Latch::default());
-    for who in [1u16, 2] {
+    for who in 1..=S5_TASKS {
         o.world.spawn_app(&format!("cli.sender{who}"), s5_sender(o.clone(), conn.clone(), who, latch.clone()));
     }
-    aw!(o, "cli.join", latch.wait(2));
+    aw!(o, "cli.join", latch.wait(S5_TASKS as u32));
     // the peer closes once it has everything
     let e = aw!(o, "cli.closed", conn.closed());
     if cerr(&e) != "app(0,\"got-all\")" {
@@ -1432,7 +1434,7 @@ async fn s5_server_conn(o: Arc<Obs>, inc: Incoming, ep: Endpoint) {
         }
     };
     let mut seen = std::collections::BTreeSet::new();
-    while seen.len() < 2 * S5_PER_TASK as usize {
+    while seen.len() < (S5_TASKS * S5_PER_TASK) as usize {
         match op!(o, "srv.read_datagram", conn.read_datagram()) {
             Ok(d) => {
                 let tag = if d.len() >= 2 { ((d[0] as u16) << 8) | d[1] as u16 } else { 0 };
